@@ -120,3 +120,18 @@ add("blk_restart64", ["C11", "C02", "C03"], ["tu/blk_step.c", "$REPO/mtbl/varint
 add("blk_decode_entry", ["C11", "C01"], ["tu/blk_step.c", "$REPO/mtbl/varint.c", "$REPO/mtbl/fixed.c"], "h_decode_entry", unwind=26, timeout=600,
     strength="U", functions=["decode_entry", "mtbl_varint_decode32"],
     assumptions=["all 24-byte contents and every available length 0..24; header numbers <= UINT32_MAX (well-formed file)"])
+# ---------------------------------------------------------------- merger induction steps (C04, C05)
+MG_FUNCS = ["merger_iter_next", "merger_iter_seek", "entry_fill", "_mtbl_merger_compare", "heap_peek", "heap_pop", "heap_replace", "heap_add", "heap_heapify", "heap_clip",
+            "siftdown", "siftup", "bytes_compare", "ubuf_*"]
+MG_ASSUME = ["sources: 2 user-defined iterators over symbolic strictly increasing arrays of <= 2 entries, keys of 0 or 1 byte (empty key included), buffers overwritten on every call",
+             "arbitrary merger-iterator state satisfying invariant M (heap = next unconsumed entry of every live source, any valid heap arrangement; remembered key separates consumed from unconsumed entries) => every history of next/seek",
+             "mtbl/iter.c's dispatchers (mtbl_iter_next/seek/destroy) modelled directly by the source iterators", "merge function = 16-bit addition over distinct powers of 4 (identifies the multiset of values used); dupsort not set"]
+MG_SRC = ["tu/merger_step.c"]
+MG_UW = {"siftdown.0": 2, "siftup.0": 2, "merger_iter_next.0": 4, "merger_iter_next.1": 6, "heap_heapify.0": 2, "ubuf_reserve.0": 2, "entry_vec_add.0": 2,
+         "merger_iter_seek.0": 4, "merger_iter_seek.1": 4}
+add("mg_next_step", ["C04", "C05"], MG_SRC, "h_merger_next_step", unwind=4, unwindset=MG_UW, timeout=900, slice=3,
+    strength="B: one merger next from an arbitrary state; 2 sources x <= 2 entries, keys <= 1 byte (empty key included)", functions=MG_FUNCS, assumptions=MG_ASSUME, replay="c04")
+add("mg_fail_step", ["C04"], MG_SRC, "h_merger_fail_step", unwind=4, unwindset=MG_UW, timeout=900,
+    strength="B: one merger next with a failing merge function from an arbitrary state; 2 sources x <= 2 entries", functions=MG_FUNCS, assumptions=MG_ASSUME, replay="c04")
+add("mg_seek_step", ["C05", "C04"], MG_SRC, "h_merger_seek_step", unwind=4, unwindset=MG_UW, timeout=900, slice=2,
+    strength="B: merger seek(k) then next from an arbitrary state; 2 sources x <= 2 entries, keys <= 1 byte (empty key included)", functions=MG_FUNCS, assumptions=MG_ASSUME, replay="c04")
